@@ -65,25 +65,40 @@ def asis : ListQuirks :=
 def pairV (p : Val × Val) : Val := .list [p.1, p.2] .space false
 
 /- `impl PartialEq for css::Value` restricted to the modelled constructors.
-(No arm for `ArgList`: an argument list is equal to nothing, not even to itself.)
-Maps: `impl PartialEq for OrderMap` (rsass/src/ordermap.rs, since fix 001310e): same
-length and every entry of the left map has an equal entry in the right map, in any order. -/
+Maps: `impl PartialEq for OrderMap` (rsass/src/ordermap.rs, fixes 001310e + 3dd7990): same
+length and inclusion BOTH ways (every entry of one map has an equal entry in the other), in
+any order.  The reverse inclusion is written with the operands of `==` flipped
+(`veqAnyRev`), so that the definition stays structurally recursive on the left value.
+Argument lists (fix 2fec817): derived `PartialEq` of `CallArgs` — positional values in
+order, named arguments as a map, and the trailing-comma flag. -/
 mutual
 def veq : Val → Val → Bool
   | .atom _ c1, .atom _ c2 => c1 == c2
   | .null, .null => true
   | .list a s1 b1, .list b s2 b2 => veqList a b && decide (s1 = s2) && b1 == b2
-  | .map a, .map b => a.length == b.length && veqAllIn a b
+  | .map a, .map b =>
+      a.length == b.length && veqAllIn a b && b.all (fun p => veqAnyRev a p.1 p.2)
+  | .arglist p1 n1 t1, .arglist p2 n2 t2 =>
+      veqList p1 p2 &&
+      (n1.length == n2.length && veqAllIn n1 n2 && n2.all (fun p => veqAnyRev n1 p.1 p.2)) &&
+      t1 == t2
   | .list a _ _, .map b => a.isEmpty && b.isEmpty
   | .map a, .list b _ _ => a.isEmpty && b.isEmpty
   | _, _ => false
+termination_by structural x => x
 def veqList : List Val → List Val → Bool
   | [], [] => true
   | x :: xs, y :: ys => veq x y && veqList xs ys
   | _, _ => false
+termination_by structural x => x
 def veqAllIn : List (Val × Val) → List (Val × Val) → Bool
   | [], _ => true
   | (k, v) :: xs, b => b.any (fun p => veq k p.1 && veq v p.2) && veqAllIn xs b
+termination_by structural x => x
+def veqAnyRev : List (Val × Val) → Val → Val → Bool
+  | [], _, _ => false
+  | (k', v') :: xs, k, v => (veq k' k && veq v' v) || veqAnyRev xs k v
+termination_by structural x => x
 end
 
 /-- `fn get_list(value) -> (Vec<Value>, Option<ListSeparator>, bool)` -/
